@@ -17,10 +17,13 @@ import (
 	"time"
 
 	"github.com/Dash-Industry-Forum/livesim2/cmd/livesim2/app"
+	"github.com/Dash-Industry-Forum/livesim2/pkg/logging"
 	"github.com/go-chi/chi/v5/middleware"
 )
 
 func init() {
+	// as main() does: without it the /loglevel endpoint dereferences a nil level variable
+	_ = logging.InitSlog("ERROR", "discard")
 	// SUT logging is discarded: logging must not perturb anything, and must not cost time.
 	slog.SetDefault(slog.New(slog.NewTextHandler(io.Discard, &slog.HandlerOptions{Level: slog.LevelError + 100})))
 }
